@@ -18,6 +18,9 @@ EXPLANATION = (
 EXPLANATION += (  # round-3 supplement
     " S5 Value::Transformed and Val<T> carry Send + Sync (read from the trait's associated-type bounds and the impl's predicates)."
 )
+EXPLANATION += (
+    ' S6 (= C15.M7) two list / buffer mutexes that are held together are acquired in an order decided by comparing the addresses of the mutexes themselves, so two threads applying an operation with swapped operands cannot wait for each other.'
+)
 ASSUMPTIONS = [
     "rustc's trait solver answers (Send/Sync per field) are the oracle",
     "machine code produced by cranelift is immutable after finalize_definitions",
@@ -211,9 +214,26 @@ def rule_s5(F):
     return r
 
 
+def rule_s6(F):
+    """Concurrent calls must terminate: two threads that apply an operation to the same two shared lists / string buffers with the
+    operands swapped must not wait for each other.  Wherever two such mutexes are held together they are acquired in an order
+    decided by comparing the addresses of the mutexes themselves (Arc::as_ptr) - not the addresses of the handles, which differ
+    from thread to thread.  Shared with C15.M7 (and M1/M2 for the single-thread self-deadlocks)."""
+    from . import c15
+    from .. import locks
+    bodies = c15._scope(F)
+    m1 = RuleResult("C12.S6a", "no mutex is acquired while a guard on the same mutex is live")
+    m2 = RuleResult("C12.S6b", "")
+    r = RuleResult("C12.S6", "two list / buffer mutexes held together are acquired in an order decided by the addresses of the mutexes (no lock-order inversion between threads)", floor=2)
+    c15._analyse(bodies, m1, m2, locks.lock_summaries(bodies), r)
+    for v in r.violations:
+        v.rule = "C12.S6"
+    return r
+
+
 def rules(ctx):
     F = ctx["F"]
-    return [rule_s1(F), rule_s3(F), rule_s5(F)]
+    return [rule_s1(F), rule_s3(F), rule_s5(F), rule_s6(F)]
 
 
 def thorough_rules(ctx):
